@@ -186,6 +186,17 @@ func (e *Environment) Has(name string) bool {
 	return false
 }
 
+// definedIn reports whether the binding that name resolves to from this
+// environment lives in scope (and not in a scope nearer to this one).
+func (e *Environment) definedIn(name string, scope *Environment) bool {
+	for cur := e; cur != nil; cur = cur.parent {
+		if _, ok := cur.vars[name]; ok {
+			return cur == scope
+		}
+	}
+	return false
+}
+
 // HasLocal checks if a variable exists in the current scope only (no parent lookup)
 func (e *Environment) HasLocal(name string) bool {
 	_, ok := e.vars[name]
